@@ -1,0 +1,35 @@
+//go:build verif
+
+// Hooks for the verification harness in /verif. Compiled only with `-tags verif`;
+// thin exported wrappers around unexported identifiers, no behaviour of their own.
+package build
+
+import (
+	"k8s.io/apimachinery/pkg/util/sets"
+)
+
+// VerifResolved mirrors the unexported `resolved` struct (one architecture's resolution as
+// LockImageConfiguration hands it to unify). A name absent from Provided has no entry in the
+// `provided` map; a nil Provided is a nil map.
+type VerifResolved struct {
+	Arch     string
+	Packages []string
+	Versions map[string]string
+	Provided map[string][]string
+}
+
+// VerifUnify calls unify.
+func VerifUnify(originals []string, inputs []VerifResolved) (map[string][]string, map[string][]string, error) {
+	in := make([]resolved, 0, len(inputs))
+	for _, r := range inputs {
+		x := resolved{arch: r.Arch, packages: sets.New(r.Packages...), versions: r.Versions}
+		if r.Provided != nil {
+			x.provided = make(map[string]sets.Set[string], len(r.Provided))
+			for k, v := range r.Provided {
+				x.provided[k] = sets.New(v...)
+			}
+		}
+		in = append(in, x)
+	}
+	return unify(originals, in)
+}
